@@ -51,11 +51,15 @@ func c09Case(t *testing.T, id int, seed uint64, out *Out) {
 	}
 	file := RuleFileSpec{Name: "targets", Version: 1, Signers: []int{kTargets}}
 	ids := []int{}
+	sharedIdentity := r.Chance(35) // two persons registered the same reviewer identity: one approval, one credit
 	for k := kDevFirst; k <= kDevFirst+3; k++ {
-		if r.Chance(75) {
+		if r.Chance(75) || (sharedIdentity && k <= kDevFirst+1) {
 			idn := map[string]string{}
 			if r.Chance(85) {
 				idn["app"] = fmt.Sprintf("user%d", k)
+			}
+			if sharedIdentity && k <= kDevFirst+1 {
+				idn["app"] = "shared-reviewer"
 			}
 			if r.Chance(30) {
 				idn["app2"] = fmt.Sprintf("alt%d", k)
@@ -135,8 +139,14 @@ func c09Case(t *testing.T, id int, seed uint64, out *Out) {
 				g := WGh{SRef: main, SFrom: tip, STo: tree, Ref: main, From: tip, To: tree, App: app.Name, Signers: []int{app.Key}, Approvers: []string{}, Dismissed: []string{}}
 				for _, pid := range rulePs {
 					ps := byID[pid]
-					if idn, ok := ps.Identities["app"]; ok && r.Chance(50) {
-						if r.Chance(85) {
+					if idn, ok := ps.Identities["app"]; ok && (r.Chance(50) || (idn == "shared-reviewer" && r.Chance(60))) {
+						listed := false
+						for _, a := range append(append([]string{}, g.Approvers...), g.Dismissed...) {
+							listed = listed || a == idn
+						}
+						if listed {
+							// an identity is listed once (the attestation holds sets)
+						} else if r.Chance(85) {
 							g.Approvers = append(g.Approvers, idn)
 						} else {
 							g.Dismissed = append(g.Dismissed, idn)
